@@ -109,7 +109,8 @@ def OffText.render (o : OffText) : Str :=
   ++ (match o.minutes with | some m => '.' :: d2 m | none => [])
   ++ (match o.name with | some n => ':' :: n | none => [])
 
-/-- total offset in minutes east of Greenwich -/
+/-- total offset in minutes east of Greenwich.  Well-formed offsets (`wf` below) have hours −12 … +14 — every
+    whole-minute offset from −12:00 to +14:00 is among them (and a few more: up to −12:59 / +14:59) -/
 def OffText.minutesEast (o : OffText) : Int :=
   let mag : Int := (60 * hoursVal o.hdigits + o.minutes.getD 0 : Nat)
   if o.sign = some true then -mag else mag
@@ -118,11 +119,7 @@ def OffText.wf (o : OffText) : Bool :=
   !o.hdigits.isEmpty && o.hdigits.all (· < 10)
   && (match o.minutes with | some m => m < 60 | none => true)
   && (match o.name with | some n => !n.contains '\n' | none => true)
-  && (-720 ≤ o.minutesEast && o.minutesEast ≤ 840)
-
-/-- the spelling `-0.MM` with MM ≠ 0 (west of Greenwich by less than an hour) -/
-def OffText.negZeroHour (o : OffText) : Bool :=
-  o.sign == some true && hoursVal o.hdigits == 0 && o.minutes.getD 0 != 0
+  && (if o.sign = some true then hoursVal o.hdigits ≤ 12 else hoursVal o.hdigits ≤ 14)
 
 def Parts.render (p : Parts) : Str :=
   (match p.date with | some (y, m, d) => d4 y ++ d2 m ++ d2 d | none => [])
